@@ -44,7 +44,9 @@ def generate(rng, n, tier, stats):
             reflected = rng.random() < 0.5
             fill_values(rng, a, op, 'exp' if reflected else 'base')
             v = rng.choice([2, 4, 1, 0.5] if op in ('/', '//') else [2, 4, 1, 0.5, 3] if op != '**' else [0, 1, 2, 3])
-            cases.append({'ins': [a], 'ops': [['scalar_op', op, v, reflected]]})
+            nps = rng.random() < 0.5
+            stats['scalar_operand'][('numpy ' if nps else 'python ') + ('left' if reflected else 'right')] += 1
+            cases.append({'ins': [a], 'ops': [['scalar_op', op, v, reflected, nps]]})
         else:
             a = rand_array(rng, stats=stats, dtype=rng.choice(['f', 'i']), ndim=rng.randint(1, 3), minlen=1, attrs=rng.random() < 0.4)
             fill_values(rng, a, op, 'base')
@@ -84,6 +86,7 @@ def oracle(case, res):
         else:
             want = ops.py_binop(o[1], arr.values, ops.py_rhs(o[2]))
         if res[0] == 'err': return 'scalar/ndarray operand raised %s' % res[1]
+        if res[1]['t'] != 'arr': return 'the result is not a DimArray (%s): the axes are lost' % res[1]['t']
         r = res[1]['v']
         if obs_dims(r) != obs_dims(a) or any(not labs_eq(x['labels'], y['labels']) for x, y in zip(r['axes'], a['axes'])): return 'axes changed'
         w = [cell_json(x) for x in np.asarray(want).ravel().tolist()]
